@@ -295,7 +295,7 @@ func mapCompare(c *gen.Case, line []byte) error {
 
 // Run02 is the C02 monitor.
 func Run02(r *ev.Run) {
-	r.Rule = "case i = f(seed,i): decodable EncoderConfig (built-in or nil sub-encoders) x entry x With-chain x fields; line decoded by the independent parser and compared member by member, in order, with the generator-carried expected tree; every third case uses unique keys and is also compared with zapcore.MapObjectEncoder; distinct = distinct (config, shape) keys; non-trivial = has at least one field"
+	r.Rule = "case i = f(seed,i): decodable EncoderConfig (built-in or nil sub-encoders) x entry x With-chain x fields; line decoded by the independent parser and compared member by member, in order, with the generator-carried expected tree; every third case uses unique keys and is also compared with zapcore.MapObjectEncoder; distinct = distinct (config, shape) keys; non-trivial = has at least one field; plus trees of array/object marshalers failing part of the way compared between the JSON line and MapObjectEncoder"
 	n := r.N(60000, 4000000)
 	parallel(n, func(i int) {
 		id := fmt.Sprintf("c02/%d", i)
